@@ -69,6 +69,10 @@ func c08Cases(seed int64, tier string) []core.Case {
 		cs = append(cs, core.MkCase("high-clusters-fat32-start", "history-fat32", r.Int63(), fatCase{Vol: FatVol{Type: "fat32", Size: 9 << 30, Start: 1 << 20, Sector: 512}, Steps: 120, Mode: "random", Handles: true, HighClusters: 4 << 30}),
 			core.MkCase("high-clusters-fat32-8g", "history-fat32", r.Int63(), fatCase{Vol: FatVol{Type: "fat32", Size: 10 << 30, Sector: 512}, Steps: 80, Mode: "random", HighClusters: 8 << 30}))
 	}
+	// several handles on one file
+	for i, v := range []FatVol{{Type: "fat12", Size: 1474560, Sector: 512}, {Type: "fat16", Size: 16 << 20, Sector: 512}, {Type: "fat32", Size: 34 << 20, Sector: 512, Start: 1 << 20}} {
+		cs = append(cs, core.MkCase(fmt.Sprintf("twohandles-%s", v.Type), "twohandles-"+v.Type, seed+int64(i), fatCase{Vol: v, Mode: "twohandles", Steps: 9}))
+	}
 	// release workloads: fill / release / refill with the structural check at every step
 	for i, v := range []FatVol{{Type: "fat12", Size: 1474560, Sector: 512}, {Type: "fat16", Size: 16 << 20, Sector: 512, Start: 512}, {Type: "fat32", Size: 4 << 20, Sector: 512}} {
 		cs = append(cs, core.MkCase(fmt.Sprintf("refill-%s", v.Type), "refill-"+v.Type, seed+int64(i), fatCase{Vol: v, Mode: "refill", Steps: 2}))
@@ -80,10 +84,10 @@ func init() {
 	core.Register(&core.Check{
 		ID:    "C08",
 		Level: "exploration",
-		Rule: "the C01 history generators (remove, rename-over, truncating open, directory growth/shrink, open handles, refused calls, fill/release/refill) on FAT12/16/32 volumes across the cluster-size table boundaries (FAT32 <=260 MiB, >260 MiB, up to 33 GiB sparse; 512- and 4096-byte sectors), at start offsets 0/512/1 MiB/4 GiB+512, and on a 6 GiB FAT32 volume whose clusters below the 4 GiB offset were marked bad beforehand, so that the history works in clusters on both sides of that offset; after Create and after EVERY call (accepted or refused) the raw bytes of the volume are parsed by the independent checker fatck: boot sector vs range, FAT32 backup boot sector and FSInfo, FAT copies identical, every chain in range / terminated / acyclic / long enough, no cross-links, no lost clusters; non-trivial = history with >=1 accepted mutating call; distinct = distinct (volume, executed history)",
+		Rule: "the C01 history generators (remove, rename-over, truncating open, directory growth/shrink, open handles incl. several handles on one file (each with its own idea of the size), refused calls, fill/release/refill) on FAT12/16/32 volumes across the cluster-size table boundaries (FAT32 <=260 MiB, >260 MiB, up to 33 GiB sparse; 512- and 4096-byte sectors), at start offsets 0/512/1 MiB/4 GiB+512, and on a 6 GiB FAT32 volume whose clusters below the 4 GiB offset were marked bad beforehand, so that the history works in clusters on both sides of that offset; after Create and after EVERY call (accepted or refused) the raw bytes of the volume are parsed by the independent checker fatck: boot sector vs range, FAT32 backup boot sector and FSInfo, FAT copies identical, every chain in range / terminated / acyclic / long enough, no cross-links, no lost clusters; non-trivial = history with >=1 accepted mutating call; distinct = distinct (volume, executed history)",
 		Assumptions: []string{"fatck (internal/fatck, written from the Microsoft FAT specification, calibrated on hand-made volumes) is correct", "rules outside the property's statement (chain longer than needed, '..' cluster value, LFN order, reserved FAT entries) are recorded but never reported"},
 		MinSigs:   map[string]int{"quick": 50, "thorough": 800},
-		NeedMarks: []string{"fat12", "fat16", "fat32", "ENOSPC reached", "volume beyond 4 GiB", "clusters in use on both sides of volume offset 4 GiB"},
+		NeedMarks: []string{"fat12", "fat16", "fat32", "ENOSPC reached", "volume beyond 4 GiB", "clusters in use on both sides of volume offset 4 GiB", "several handles on one file with different remembered sizes"},
 		CPUSec:    900,
 		Cases:     c08Cases,
 		Run:       func(c core.Case, env *core.Env) core.Result { return runFatCase("C08", c, env) },
